@@ -381,7 +381,7 @@ class RetryExecutor(CanCustomizeBind, Executor):
 
                     if not job.delegate_future:
                         self._log.debug("Successful cancel - no delegate: %s", job)
-                        self._jobs.pop(idx)
+                        self._pop_job(job)
                         return True
 
                     found_job = job
@@ -408,9 +408,9 @@ class RetryExecutor(CanCustomizeBind, Executor):
         if found_job.delegate_future.cancel():
             self._log.debug("Successful cancel: %s", found_job)
             future._clear_delegate()
-            # Don't remove from _jobs here,
-            # the callback attached to delegate_future was expected
-            # to take care of that
+            # The callback attached to delegate_future returns early for a
+            # cancelled delegate, so the job has to be removed here.
+            self._pop_job(found_job)
             return True
 
         self._log.debug("Could not cancel: %s", found_job)
